@@ -369,48 +369,76 @@ def atticLoop (E : Env) (cfg : Cfg) (p : Path) (new : List (Dir × Digest)) (old
 def collides (E : Env) (c : Content) (new old : List (Dir × Digest)) : Bool :=
   new.any fun x => x.1 ≠ "." && (lookupScm old x.1).isNone && E.hasDir c x.1
 
+/-- old SCM directories, old variant-id key, old build-only entry -/
+abbrev OldCo := List (Dir × Digest) × Option Vid × Option BoState
+
+/-- `checkoutReason` is set: created / forced / indeterministic / recipe changed
+(`compareDirectoryState`) / dependency changed / workspace changed -/
+def checkoutReason (E : Env) (cfg : Cfg) (i : Info) (ds : List Step) (created : Bool) (old : OldCo)
+    (st : St) (inH : Inputs) : Bool :=
+  created || cfg.force || !i.det
+  || !(decide (old.1 = i.scms) && decide (old.2.1 = some (Vid.mk i.sig (vids ds))))
+  || decide (st.inputs i.path ≠ some inH)
+  || (i.hasScript && decide (st.results i.path ≠ some (hashOf E st i.path)))
+
+/-- the branch `if checkoutReason:` of `_cookCheckoutStep`; returns `oldCheckoutHash` -/
+def checkoutRun (E : Env) (cfg : Cfg) (i : Info) (ds : List Step) (old : OldCo) (oldHash : Option RH)
+    (inH : Inputs) : M (Option RH) := do
+  let p := i.path
+  let newVid := Vid.mk i.sig (vids ds)
+  let newBo : BoState := { loc := i.boLoc, upd := i.boUpd, ins := inH }
+  let keep ← atticLoop E cfg p i.scms old.2.1 old.2.2 old.1 old.1
+  let st1 ← getSt
+  if collides E ((st1.disk p).getD emptyC) i.scms keep then abort
+  -- store new SCM checkout state, without the variant-id key
+  prim (.setDir p (.co i.scms none (some newBo))) (fun s => s.setDir p (.co i.scms none (some newBo)))
+  -- forge checkout result before we run the step again
+  let st2 ← getSt
+  let oh ← (if (st2.results p).isSome then do
+      prim (.setResult p (.forged st2.clock)) (fun s => s.forge p)
+      pure (some (RH.forged st2.clock))
+    else pure oldHash)
+  runScript E i false (contentsOf st2 ds)
+  prim (.setDir p (.co i.scms (some newVid) (some newBo)))
+    (fun s => s.setDir p (.co i.scms (some newVid) (some newBo)))
+  prim (.setInputs p inH) (fun s => s.setInputs p inH)
+  let st3 ← getSt
+  prim (.setVid p (ivid st3 i ds)) (fun s => s.setVid p (ivid st3 i ds))
+  pure oh
+
 def cookCheckout (E : Env) (cfg : Cfg) (i : Info) (ds : List Step) : M Unit := do
   let p := i.path
   -- get directory into shape
   let created ← constructDir p
   let st0 ← getSt
-  let (oldScms0, oldVid0, oldBo0) := coParts (st0.dirStates p)
-  let (oldScms, oldVid, oldBo) := if created then ([], none, none) else (oldScms0, oldVid0, oldBo0)
+  let old : OldCo := if created then ([], none, none) else coParts (st0.dirStates p)
   whenM created (prim (.reset p (some (.co [] none none))) (fun s => s.reset p (some (.co [] none none))))
   let st ← getSt
   let oldHash := st.results p
   let inH := resultsOf st ds
-  let newVid := Vid.mk i.sig (vids ds)
-  let newBo : BoState := { loc := i.boLoc, upd := i.boUpd, ins := inH }
-  let reason : Bool :=
-    created || cfg.force || !i.det
-    || !(decide (oldScms = i.scms) && decide (oldVid = some newVid))   -- compareDirectoryState
-    || decide (st.inputs p ≠ some inH)
-    || (i.hasScript && decide (oldHash ≠ some (hashOf E st p)))
-  let oldHash' ← (if reason then do
-      let keep ← atticLoop E cfg p i.scms oldVid oldBo oldScms oldScms
-      let st1 ← getSt
-      if collides E ((st1.disk p).getD emptyC) i.scms keep then abort
-      -- store new SCM checkout state, without the variant-id key
-      prim (.setDir p (.co i.scms none (some newBo))) (fun s => s.setDir p (.co i.scms none (some newBo)))
-      -- forge checkout result before we run the step again
-      let st2 ← getSt
-      let oh ← (if (st2.results p).isSome then do
-          prim (.setResult p (.forged st2.clock)) (fun s => s.forge p)
-          pure (some (RH.forged st2.clock))
-        else pure oldHash)
-      runScript E i false (contentsOf st2 ds)
-      prim (.setDir p (.co i.scms (some newVid) (some newBo)))
-        (fun s => s.setDir p (.co i.scms (some newVid) (some newBo)))
-      prim (.setInputs p inH) (fun s => s.setInputs p inH)
-      let st3 ← getSt
-      prim (.setVid p (ivid st3 i ds)) (fun s => s.setVid p (ivid st3 i ds))
-      pure oh
+  let oldHash' ← (if checkoutReason E cfg i ds created old st inH then checkoutRun E cfg i ds old oldHash inH
     else pure oldHash)
   -- we always have to rehash the directory
   let st4 ← getSt
   let h := hashOf E st4 p
   whenM (decide (some h ≠ oldHash') || cfg.force) (prim (.setResult p h) (fun s => s.setResult p h))
+
+/-- the common tail of `_cookBuildStep` and `_cookPackageStep` in source order: squash the state
+("if the execution fails we have nothing reliable left"), run the script, then record result hash,
+variant id (build: computed before, package: after the script) and finally the input hashes.
+`st` is the state the input hashes `inH` were read in. -/
+def runRecord (E : Env) (i : Info) (clean : Bool) (st : St) (ins : List Step) (inH : Inputs)
+    (iv : St → Vid) : M Unit := do
+  let p := i.path
+  prim (.delInputs p) (fun s => s.delInputs p)
+  prim (.setResult p (.forged st.clock)) (fun s => s.forge p)
+  runScript E i clean (contentsOf st ins)
+  let st2 ← getSt
+  let h := hashOf E st2 p
+  let v := iv st2
+  prim (.setResult p h) (fun s => s.setResult p h)
+  prim (.setVid p v) (fun s => s.setVid p v)
+  prim (.setInputs p inH) (fun s => s.setInputs p inH)
 
 /-! ## `_cookBuildStep` -/
 
@@ -437,15 +465,7 @@ def cookBuild (E : Env) (cfg : Cfg) (i : Info) (ds : List Step) : M Unit := do
   if !cfg.force && decide (st.inputs p = some inH) then
     -- skipped; develop mode always rehashes
     whenM (!cfg.cleanBuild) (prim (.setResult p (hashOf E st p)) (fun s => s.setResult p (hashOf E st p)))
-  else do
-    prim (.delInputs p) (fun s => s.delInputs p)
-    prim (.setResult p (.forged st.clock)) (fun s => s.forge p)
-    runScript E i cfg.cleanBuild (contentsOf st ds)
-    let st2 ← getSt
-    let bh := hashOf E st2 p
-    prim (.setResult p bh) (fun s => s.setResult p bh)
-    prim (.setVid p iv) (fun s => s.setVid p iv)
-    prim (.setInputs p inH) (fun s => s.setInputs p inH)
+  else runRecord E i cfg.cleanBuild st ds inH (fun _ => iv)
 
 /-! ## `_preparePackageStep`, `_cookPackageStep` -/
 
@@ -469,17 +489,7 @@ def cookPackage (E : Env) (cfg : Cfg) (i : Info) (pre ds : List Step) : M Unit :
   let st ← getSt
   let inH := inputHashes st i (pre ++ ds)
   if !cfg.force && decide (st.inputs p = some inH) then pure ()
-  else do
-    -- invalidate result because folder will be cleared
-    prim (.delInputs p) (fun s => s.delInputs p)
-    prim (.setResult p (.forged st.clock)) (fun s => s.forge p)
-    runScript E i true (contentsOf st (pre ++ ds))
-    let st2 ← getSt
-    let ph := hashOf E st2 p
-    let iv := ivid st2 i ds
-    prim (.setResult p ph) (fun s => s.setResult p ph)
-    prim (.setVid p iv) (fun s => s.setVid p iv)
-    prim (.setInputs p inH) (fun s => s.setInputs p inH)
+  else runRecord E i true st (pre ++ ds) inH (fun st2 => ivid st2 i ds)
 
 /-! ## `_cook`, `_cookStep`, `_getBuildId` (depth-first driver, `-j 1`) -/
 
